@@ -254,6 +254,12 @@ func ttlBegin(rng *rand.Rand, n int, o *Out) {
 		if err != nil {
 			obs = []int64{0, beginErrCode(err)}
 		} else {
+			// observation only (see the assumptions of the check): the ttl is fixed when the call
+			// starts; time the caller spends before the first fragment is flushed is not deducted
+			late := i%40 == 7
+			if late {
+				clock.set(now.Add(700 * time.Millisecond))
+			}
 			done := make(chan error, 1)
 			go func() {
 				w, err := call.Arg2Writer()
@@ -289,6 +295,14 @@ func ttlBegin(rng *rand.Rand, n int, o *Out) {
 				}
 				if remaining.Cmp(two32ms) >= 0 {
 					o.Hist("ttl_begin:remaining>=2^32ms(field wraps)")
+				}
+				if late {
+					atSend := new(big.Int).Sub(remaining, big.NewInt(700*msNs))
+					if sent.Cmp(atSend) > 0 {
+						o.Hist("ttl_begin:observation: flush 700ms after BeginCall, field still the remaining time at BeginCall")
+					} else {
+						o.Hist("ttl_begin:observation: flush 700ms after BeginCall, field within the remaining time at flush")
+					}
 				}
 			}
 			select {
